@@ -416,7 +416,7 @@ class ProcessRunner(Runner, ABC):
     def remove_results(self, tasks: Sequence[Task]) -> None:
         for task in tasks:
             if task not in self.results_map:
-                return
+                continue
             logger.debug(f"Removing result from in-memory cache for task: '{task}'")
             del self.results_map[task]
 
